@@ -126,7 +126,7 @@ ChainProgs ==
 
 \* -- TVFS manifest -----------------------------------------------------------------------
 TFlags  == IF Quick THEN {0, 1, 5} ELSE 0..7
-TShapes == {"flat", "deep", "wide", "pfx"}
+TShapes == {"flat", "deep", "wide", "pfx", "sep"}
 TvfsProg(flags, shape, n, namelen, nest, estlen, ord) ==
   [kind |-> "tvfs", flags |-> flags, shape |-> shape, n |-> n, namelen |-> namelen, nest |-> nest, estlen |-> estlen,
    ord |-> ord, probes |-> ProbeSeq(12, n, "flat", {})]
